@@ -560,6 +560,10 @@ pub struct RunOpts {
     pub no_epilogue: bool,
     /// application actions to skip (twin runs for refused requests)
     pub skip_apps: BTreeSet<usize>,
+    /// ordinals of send calls (requests and indications, in call order) to skip without calling the client
+    pub skip_sends: BTreeSet<usize>,
+    /// start the probe phase no earlier than this instant (twin runs)
+    pub probe_start_at: Option<u64>,
 }
 
 #[derive(Clone, Debug, PartialEq, Eq, PartialOrd, Ord)]
@@ -609,6 +613,7 @@ struct World<'a> {
     n_s2c: usize,
     n_srv: usize,
     n_retry: usize,
+    n_send: usize,
     s2c_last_at: u64,
     c2s_last_at: u64,
     stall_until: u64,
@@ -1238,6 +1243,11 @@ impl<'a> World<'a> {
     // ----- calls into the real client --------------------------------------------------------
 
     fn do_send(&mut self, app: usize, a: &AppAction) {
+        let ordinal = self.n_send;
+        self.n_send += 1;
+        if self.opts.skip_sends.contains(&ordinal) {
+            return;
+        }
         let attrs = build_app_attrs(&a.attrs);
         let buf = vec![a.fill; a.buf];
         let inst = self.instant(self.now);
@@ -1364,6 +1374,15 @@ impl<'a> World<'a> {
                 let mut id = [0u8; 12];
                 id[0] = 0x49;
                 id[11] = k as u8;
+                if kv_has(kv, "usetx") {
+                    // an indication that carries the id of a request still awaiting its response
+                    let gen = self.gen;
+                    let aw: Vec<Id> = self.ledger.txs.iter().filter(|t| t.gen == gen && t.finals.is_empty()).map(|t| t.id).collect();
+                    if !aw.is_empty() {
+                        id = aw[kv_u64(kv, "usetx", 0) as usize % aw.len()];
+                        self.ledger.stats.fault("inj_indication_with_outstanding_id");
+                    }
+                }
                 let hint = self.learned_alg();
                 let mut kv2 = kv.clone();
                 if self.cfg.fp && !kv_has(&kv2, "fp") {
@@ -1405,7 +1424,7 @@ impl<'a> World<'a> {
 
     /// The algorithm a short-term client has configured or (per the ledger) learned.
     fn learned_alg(&self) -> Option<Alg> {
-        let s = &self.ledger.steps.last()?.snap.cred;
+        let s = &self.snapshot().cred;
         if s.contains("MessageIntegritySha256") {
             Some(Alg::Sha)
         } else if s.contains("MessageIntegrity)") {
@@ -1544,7 +1563,7 @@ impl<'a> World<'a> {
                         "t={} kind=ind integ={}{}",
                         at,
                         *rng.pick(&["auto", "auto", "none", "bad", "wrongkey", "other", "both", "mi", "sha"]),
-                        if rng.chance(1, 5) { *rng.pick(&[" fp=none", " fp=bad", " fp=force"]) } else { "" }
+                        if rng.chance(1, 5) { *rng.pick(&[" fp=none", " fp=bad", " fp=force"]) } else if rng.chance(1, 4) { *rng.pick(&[" usetx=0", " usetx=1", " usetx=2"]) } else { "" }
                     ),
                     4 => format!("t={} kind=random seed={} n={}{}", at, rng.below(1 << 30), rng.below(120), if rng.chance(1, 2) { " stunlike" } else { "" }),
                     5 => format!("t={} kind=random seed={} n={}", at, rng.below(1 << 30), rng.below(30)),
@@ -1660,6 +1679,11 @@ impl<'a> World<'a> {
     /// Probes issued once the run is quiescent (heap empty, faults stopped).
     fn probe_phase(&mut self) {
         self.phase = Phase::Probe;
+        // twin runs probe at the instant the original run did
+        if let Some(at) = self.opts.probe_start_at {
+            self.now = self.now.max(at);
+        }
+        self.ledger.probe_start_ns = Some(self.now);
         if self.opts.probe_late_responses {
             // a correctly protected response for finished transactions: must be rejected
             let fin: Vec<Id> = self
@@ -1758,6 +1782,7 @@ pub fn run(src: &mut Source, profile: &Profile, opts: &RunOpts) -> RunResult {
         txs: vec![],
         stats: Stats::default(),
         quiesce_from: None,
+        probe_start_ns: None,
         truncated: false,
     };
     let mut w = World {
@@ -1779,6 +1804,7 @@ pub fn run(src: &mut Source, profile: &Profile, opts: &RunOpts) -> RunResult {
         n_s2c: 0,
         n_srv: 0,
         n_retry: 0,
+        n_send: 0,
         s2c_last_at: 0,
         c2s_last_at: 0,
         stall_until: 0,
